@@ -39,18 +39,19 @@ def scene_records(scene: dict) -> dict[str, dict]:
     edges = scene["edges"]
     region = scene.get("region", "box")
     seed = scene["data_seed"]
+    wk = dict(w_kind=scene.get("w_kind", "dyadic"))
     out = {}
     out["ref"] = wl.gen_records(
-        seed * 4 + 0, scene["n_ref"], region=region, has_w=scene.get("w_ref", True), has_z=True, zedges=edges
+        seed * 4 + 0, scene["n_ref"], region=region, has_w=scene.get("w_ref", True), has_z=True, zedges=edges, **wk
     )
     out["unk"] = wl.gen_records(
-        seed * 4 + 1, scene["n_unk"], region=region, has_w=scene.get("w_unk", False), has_z=scene.get("z_unk", False), zedges=edges
+        seed * 4 + 1, scene["n_unk"], region=region, has_w=scene.get("w_unk", False), has_z=scene.get("z_unk", False), zedges=edges, **wk
     )
     out["rref"] = wl.gen_records(
-        seed * 4 + 2, scene["n_rref"], region=region, has_w=scene.get("w_rref", False), has_z=True, zedges=edges
+        seed * 4 + 2, scene["n_rref"], region=region, has_w=scene.get("w_rref", False), has_z=True, zedges=edges, **wk
     )
     out["runk"] = wl.gen_records(
-        seed * 4 + 3, scene["n_runk"], region=region, has_w=scene.get("w_runk", True), has_z=scene.get("z_runk", False), zedges=edges
+        seed * 4 + 3, scene["n_runk"], region=region, has_w=scene.get("w_runk", True), has_z=scene.get("z_runk", False), zedges=edges, **wk
     )
     return out
 
